@@ -280,6 +280,15 @@ class Repo:
             i = mo.start()
             if i > 0 and text[i - 1] == '.':
                 return w
+            j = mo.end()
+            while j < len(text) and text[j] == ' ':
+                j += 1
+            if j < len(text) and text[j] == '=' and text[j + 1:j + 2] != '=' and i > 0 and text[i - 1] in '(, ':
+                k = i - 1
+                while k >= 0 and text[k] == ' ':
+                    k -= 1
+                if k >= 0 and text[k] in '(,':
+                    return w        # keyword argument name
             if w in loc:
                 if w not in mapping:
                     mapping[w] = '_v%d' % len(mapping)
